@@ -1,7 +1,10 @@
 """C16 -- JUnit report is well-formed XML and faithful to the run.
-Scenario:  <package> <ntests> { <group> <name> <file> <line> <ignored> <nstmts> { :p <text> | :f <file> <line> <msg> | :x <file> <line> <msg> } }
+Scenario:  <ntests> { <nops> { op } <group> <name> <file> <line> <ignored> <nstmts> { :p <text> | :f <file> <line> <msg> | :x <file> <line> <msg> } } <npost> { op }
            (:p = TestResult::print, :f = addFailure and continue, :x = fail() and leave the test; tests run in the order given)
-Observation: <nfiles> { <filename> <content> } -- every file JUnitTestOutput wrote through the PlatformSpecificFOpen/FPuts/FClose seams.
+           op = :k <package> (setPackageName) | :n <group> (createFileName, the answer is observed).  The ops in front of a test are made on the
+           output object just before its printCurrentTestStarted callback, the trailing ones after runAllTests returned; no :k = package never set.
+Observation: <nfiles> { <filename> <content> } <nnames> { <answer> } -- every file JUnitTestOutput wrote through the PlatformSpecificFOpen/FPuts/FClose
+           seams, and what each createFileName call answered.
 Judges: the extracted Coq `spec` (xml_parse + property) and, independently, Python's expat + a property check written here."""
 import xml.parsers.expat as expat
 from vlib import tb
@@ -9,15 +12,23 @@ from vlib import tb
 ID = "C16"
 FLAVOURS = ["asan"]
 HARNESS_SRCS = ["harness/C16.cpp"]
-RULE = ("runs of 1-6 groups x 1-8 scripted tests (pass / fail once / fail several times / fail() then unreachable statements / ignored / printing), "
-        "package empty or not; every text (package, group, test name, source path, failure path, message, printed text) drawn from printable "
+RULE = ("runs of 1-6 groups x 1-8 scripted tests (pass / fail once / fail several times / fail() then unreachable statements / ignored / printing); "
+        "every text (package, group, test name, source path, failure path, message, printed text) drawn from printable "
         "ASCII + CR + LF weighted to & < > \" ' ] and to fragments such as &amp; &#10; ]]> <!-- </testcase> \"/> ; group and package names also "
         "weighted to the characters encodeFileName replaces. A hand-written corpus puts each special character alone into each field. "
-        "non-trivial = some text contains a character with XML meaning, or the run has a failure, an ignored test or more than one group")
+        "Package: set once before the run / never / late (after createFileName was asked, after the first group, inside a group) / changed before "
+        "each group / set twice / set to empty again, with createFileName asked before, between and after (random runs, plus an exhaustive family: "
+        "every triple of short op sequences in front of group 1, in front of group 2 and after a two-group run). "
+        "Long texts: captured output and failure messages of 1023..1025, 2047..2049, 3071..3073, 4095..4097, 5000, 10 k, 20 k, 40 k characters "
+        "(thorough: up to 100 k), printed at once, in chunks, or accumulated over several groups, with characters needing escaping on and around "
+        "every multiple of 1024. non-trivial = some text contains a character with XML meaning, or the run has a failure, an ignored test, an "
+        "outside call or more than one group")
 ASSUMPTIONS = ["texts are over printable ASCII (0x20-0x7e) plus CR and LF; TAB and bytes >= 0x80 are outside the property's quantifier",
                "line numbers and counts fit in int (they are printed through (int) casts with %d)",
                "tests of a group run consecutively, no filters (every registered test runs)",
-               "the clock seams return constants (time attributes are not constrained by the property)"]
+               "the clock seams return constants (time attributes are not constrained by the property)",
+               "setPackageName / createFileName are called between callbacks (before a test's start callback, before or after the run), not from inside a writer function",
+               "system-out of a group may carry either the text captured so far in the whole run (what the code does: the capture is never cleared) or the group's own text"]
 PER_TIMEOUT = 30.0
 CRASH_IS_VIOLATION = True
 
@@ -47,17 +58,44 @@ def plain(rng, maxlen=8):
     return bytes(rng.choice(b"abcxyzGT_019.") for _ in range(rng.randrange(1, maxlen + 1)))
 
 
+def long_text(rng, n, mode):
+    """exactly n characters; mode 0 = letters only, 1 = characters needing escaping on and around every multiple of 1024 (and 1000), 2 = special everywhere"""
+    if mode == 0:
+        return bytes(0x61 + (i // 7) % 26 for i in range(n))
+    b = bytearray(rng.randrange(0x20, 0x7f) if rng.random() < 0.9 else rng.choice(SPECIAL) for _ in range(n)) if mode == 2 \
+        else bytearray(0x41 + (i // 11) % 26 for i in range(n))
+    for base in list(range(0, n + 1, 1024)) + list(range(0, n + 1, 1000)):
+        for d in (-2, -1, 0, 1):
+            if 0 <= base + d < n and rng.random() < 0.8:
+                b[base + d] = rng.choice(b"&<>\"\r\n'")
+    return bytes(b)
+
+
+# ---- scenario <-> text.  test = (ops, group, name, file, line, ignored, body); op = ("k", package) | ("n", group)
 def ser_stmt(st):
     if st[0] == "p":
         return ":p " + tb(st[1])
     return ":%s %s %x %s" % (st[0], tb(st[1]), st[2], tb(st[3]))
 
 
-def ser(pkg, tests):
-    out = [tb(pkg), "%x" % len(tests)]
-    for (g, n, f, l, ign, body) in tests:
-        out += [tb(g), tb(n), tb(f), "%x" % l, "1" if ign else "0", "%x" % len(body)] + [ser_stmt(s) for s in body]
+def ser_ops(ops):
+    return ["%x" % len(ops)] + [":%s %s" % (k, tb(v)) for k, v in ops]
+
+
+def ser(tests, post=()):
+    out = ["%x" % len(tests)]
+    for (ops, g, n, f, l, ign, body) in tests:
+        out += ser_ops(ops) + [tb(g), tb(n), tb(f), "%x" % l, "1" if ign else "0", "%x" % len(body)] + [ser_stmt(s) for s in body]
+    out += ser_ops(list(post))
     return " ".join(out)
+
+
+def with_pkg(pkg, plain_tests, post=()):
+    """the old form: the package set once before anything else ('' = never set)"""
+    ts = [((), ) + tuple(t) for t in plain_tests]
+    if pkg and ts:
+        ts[0] = ((("k", pkg),),) + ts[0][1:]
+    return ser(ts, post)
 
 
 def unb(tok):
@@ -66,43 +104,64 @@ def unb(tok):
 
 def parse_scn(s):
     t = s.split()
-    i = 0
-    pkg = unb(t[0]); n = int(t[1], 16); i = 2
+    pos = [0]
+    def nxt():
+        pos[0] += 1
+        return t[pos[0] - 1]
+    def ops():
+        return [(nxt()[1:], unb(nxt())) for _ in range(int(nxt(), 16))]
     tests = []
-    for _ in range(n):
-        g, nm, f, l, ign, m = unb(t[i]), unb(t[i + 1]), unb(t[i + 2]), int(t[i + 3], 16), t[i + 4] != "0", int(t[i + 5], 16)
-        i += 6
+    for _ in range(int(nxt(), 16)):
+        o = ops()
+        g, nm, f, l, ign, m = unb(nxt()), unb(nxt()), unb(nxt()), int(nxt(), 16), nxt() != "0", int(nxt(), 16)
         body = []
         for _ in range(m):
-            tag = t[i][1:]
+            tag = nxt()[1:]
             if tag == "p":
-                body.append(("p", unb(t[i + 1]))); i += 2
+                body.append(("p", unb(nxt())))
             else:
-                body.append((tag, unb(t[i + 1]), int(t[i + 2], 16), unb(t[i + 3]))); i += 4
-        tests.append((g, nm, f, l, ign, body))
-    return pkg, tests
+                body.append((tag, unb(nxt()), int(nxt(), 16), unb(nxt())))
+        tests.append((o, g, nm, f, l, ign, body))
+    post = ops()
+    return tests, post
 
 
-def gen_run(rng, special=True, big=False):
+def gen_ops(rng, tx, groups, never_empty=False):
+    """a short sequence of outside calls"""
+    out = []
+    for _ in range(rng.choice([1, 1, 1, 2, 2, 3])):
+        c = rng.random()
+        if c < 0.55:
+            out.append(("k", b"" if (rng.random() < 0.2 and not never_empty) else tx(8, FORBIDDEN)))
+        else:
+            out.append(("n", rng.choice(groups) if groups and rng.random() < 0.6 else tx(8, FORBIDDEN)))
+    return out
+
+
+def gen_run(rng, special=True, big=False, pkgmode=None):
     tx = (lambda m=12, extra=b"": text(rng, m, extra=extra)) if special else (lambda m=12, extra=b"": plain(rng))
-    pkg = b"" if rng.random() < 0.5 else tx(8, FORBIDDEN)
+    if pkgmode is None:
+        pkgmode = rng.choice(["once", "once", "once", "never", "late", "late", "changing", "changing", "wild"])
     ngroups = rng.randrange(1, 7 if not big else 10)
     tests = []
     prev = None
-    for _ in range(ngroups):
+    gnames = []
+    for gi in range(ngroups):
         g = tx(8, FORBIDDEN)
         while g == prev:
             g = g + b"x"
         prev = g
+        gnames.append(g)
         tfile = tx(10)
-        for _ in range(rng.randrange(1, 9 if not big else 14) if rng.random() < 0.7 else 1):
+        ntests = rng.randrange(1, 9 if not big else 14) if rng.random() < 0.7 else 1
+        for ti in range(ntests):
             name = tx(10)
             f = tfile if rng.random() < 0.7 else tx(10)
             line = rng.choice([0, 1, 9, 10, 99, 100, 12345, 2147483647, rng.randrange(1, 100000)])
             kind = rng.random()
             body = []
             if kind < 0.15:
-                tests.append((g, name, f, line, True, [("p", tx())] if rng.random() < 0.3 else []))
+                tests.append(([], g, name, f, line, True, [("p", tx())] if rng.random() < 0.3 else []))
                 continue
             for _ in range(rng.choice([0, 0, 1, 1, 2, 3, 5])):
                 c = rng.random()
@@ -112,8 +171,37 @@ def gen_run(rng, special=True, big=False):
                     ff = f if rng.random() < 0.5 else tx(10)
                     ll = rng.choice([0, 7, 10, 4294967, 2147483647, rng.randrange(1, 5000)])
                     body.append(("f" if c < 0.75 else "x", ff, ll, tx(20)))
-            tests.append((g, name, f, line, False, body))
-    return ser(pkg, tests)
+            tests.append(([], g, name, f, line, False, body))
+    # outside calls
+    first_of_group = [i for i in range(len(tests)) if i == 0 or tests[i][1] != tests[i - 1][1]]
+    post = []
+    def put(i, ops):
+        tests[i] = (tests[i][0] + ops,) + tests[i][1:]
+    if pkgmode == "once":
+        if rng.random() < 0.75:
+            put(0, [("k", tx(8, FORBIDDEN))])
+    elif pkgmode == "late":
+        # a name is asked, or a group written, while there is no package yet; then the package is set
+        if rng.random() < 0.6:
+            put(0, [("n", rng.choice(gnames))] + ([("k", tx(8, FORBIDDEN))] if rng.random() < 0.5 else []))
+        later = [i for i in range(1, len(tests))]
+        if later and rng.random() < 0.85:
+            i = rng.choice(first_of_group[1:]) if len(first_of_group) > 1 and rng.random() < 0.7 else rng.choice(later)
+            put(i, [("k", tx(8, FORBIDDEN))])
+        if rng.random() < 0.5:
+            post = gen_ops(rng, tx, gnames)
+    elif pkgmode == "changing":
+        for i in first_of_group:
+            if rng.random() < 0.7:
+                put(i, gen_ops(rng, tx, gnames))
+        if rng.random() < 0.5:
+            post = gen_ops(rng, tx, gnames)
+    elif pkgmode == "wild":
+        for i in range(len(tests)):
+            if rng.random() < 0.3:
+                put(i, gen_ops(rng, tx, gnames))
+        post = gen_ops(rng, tx, gnames) if rng.random() < 0.7 else []
+    return ser(tests, post)
 
 
 def corpus_like():
@@ -128,13 +216,75 @@ def corpus_like():
                      (v[1], b"t2", v[3], 20, True, []),
                      (v[7], b"t3", v[3], 30, False, [("x", v[3], 31, v[5]), ("p", b"unreachable")]),
                      (v[7], b"t4", v[3], 40, False, [])]
-            out.append(ser(v[0], tests))
-            out.append(ser(b"", tests[:1]))
+            out.append(with_pkg(v[0], tests))
+            out.append(with_pkg(b"", tests[:1]))
+    return out
+
+
+def op_orders():
+    """every triple (in front of group G, in front of group H, after the run) of short op sequences: package set late, changed between
+    groups, set twice, set to empty, never set; createFileName asked before / between / after"""
+    K = lambda p: ("k", p)
+    N = lambda g: ("n", g)
+    seqs = [[], [K(b"a")], [K(b"b:c")], [K(b"")], [N(b"G")], [N(b"H"), K(b"a")], [K(b"a"), N(b"H")], [K(b"a"), K(b"b:c")], [K(b"a"), K(b"")]]
+    out = []
+    for s1 in seqs:
+        for s2 in seqs:
+            for s3 in ([], [N(b"G")], [K(b"z"), N(b"H")]):
+                t1 = (s1, b"G", b"t1", b"a.cpp", 1, False, [])
+                t2 = (s2, b"H", b"t2", b"a.cpp", 2, False, [])
+                out.append(ser([t1, t2], s3))
+    # inside a group, and in front of an ignored test
+    for s2 in seqs[1:]:
+        out.append(ser([([], b"G", b"t1", b"a.cpp", 1, False, []), (s2, b"G", b"t2", b"a.cpp", 2, True, []), ([], b"H", b"t3", b"a.cpp", 3, False, [])], [N(b"G")]))
+    return out
+
+
+LONG_QUICK = [1023, 1024, 1025, 2047, 2048, 2049, 3071, 3072, 3073, 4095, 4096, 4097, 5000, 10000, 20000, 40000]
+
+
+def gen_long(rng, n, shape, mode):
+    """n characters of captured output / failure message"""
+    T = lambda ops, g, nm, body, ign=False: (ops, g, nm, b"a.cpp", 7, ign, body)
+    if shape == "print":        # one print, one group
+        return ser([T([], b"G", b"t", [("p", long_text(rng, n, mode))])])
+    if shape == "chunks":       # many prints of uneven size, two tests
+        txt = long_text(rng, n, mode)
+        cuts = sorted(set([0, n] + [rng.randrange(0, n + 1) for _ in range(rng.randrange(1, 12))]))
+        body = [("p", txt[a:b]) for a, b in zip(cuts, cuts[1:])]
+        h = len(body) // 2
+        return ser([T([], b"G", b"t", body[:h]), T([], b"G", b"u", body[h:])])
+    if shape == "groups":       # the capture grows over three groups (it is never cleared): the sizes of the three files straddle n
+        a = n // 3
+        return ser([T([], b"G", b"t", [("p", long_text(rng, a, mode))]), T([], b"H", b"t", [("p", long_text(rng, a, mode))]),
+                    T([], b"I", b"t", [("p", long_text(rng, n - 2 * a, mode))])])
+    if shape == "message":      # a failure message of that length (second failure of the test is long too but not reported)
+        return ser([T([("k", b"p")], b"G", b"t", [("f", b"b.cpp", 12, long_text(rng, n, mode)), ("f", b"b.cpp", 13, long_text(rng, 50, mode))])])
+    if shape == "fail-stop":    # fail() with a long message after a long print
+        return ser([T([], b"G", b"t", [("p", long_text(rng, n // 2, mode)), ("x", b"b.cpp", 12, long_text(rng, n, mode)), ("p", b"unreachable")])])
+    raise ValueError(shape)
+
+
+def long_family(rng, tier):
+    out = []
+    sizes = LONG_QUICK if tier == "quick" else LONG_QUICK + [1, 512, 1000, 1536, 2500, 6143, 6144, 6145, 8191, 8192, 8193, 16384, 16385, 30000, 65536, 100000]
+    for n in sizes:
+        big = n > 5000
+        for shape in ["print", "chunks", "groups", "message", "fail-stop"]:
+            if tier == "quick" and big and shape in ("chunks", "fail-stop"):
+                continue
+            if tier == "quick" and n == 40000 and shape != "print":
+                continue
+            modes = [1] if (tier == "quick" or big) else [0, 1, 2]
+            if tier == "quick" and shape == "print" and not big:
+                modes = [0, 1]
+            for mode in modes:
+                out.append(gen_long(rng, n, shape, mode))
     return out
 
 
 def generate(tier, rng):
-    out = corpus_like()
+    out = corpus_like() + op_orders() + long_family(rng, tier)
     n = 450 if tier == "quick" else 30000
     for k in range(n):
         out.append(gen_run(rng, special=(k % 10 != 0), big=(tier != "quick" and k % 50 == 0)))
@@ -142,11 +292,12 @@ def generate(tier, rng):
 
 
 def _texts(s):
-    pkg, tests = parse_scn(s)
-    names = [pkg] + [x for t in tests for x in (t[0], t[1], t[2])] + [st[1] for t in tests for st in t[5] if st[0] != "p"]
-    msgs = [st[3] for t in tests for st in t[5] if st[0] != "p"]
-    prints = [st[1] for t in tests for st in t[5] if st[0] == "p"]
-    return pkg, tests, names, msgs, prints
+    tests, post = parse_scn(s)
+    ops = [o for t in tests for o in t[0]] + post
+    names = [o[1] for o in ops] + [x for t in tests for x in (t[1], t[2], t[3])] + [st[1] for t in tests for st in t[6] if st[0] != "p"]
+    msgs = [st[3] for t in tests for st in t[6] if st[0] != "p"]
+    prints = [st[1] for t in tests for st in t[6] if st[0] == "p"]
+    return tests, post, ops, names, msgs, prints
 
 
 def _has(bs, chars=b"&<>\"'\r\n"):
@@ -154,25 +305,52 @@ def _has(bs, chars=b"&<>\"'\r\n"):
 
 
 def nontrivial(s):
-    pkg, tests, names, msgs, prints = _texts(s)
-    return (_has(names) or _has(msgs) or _has(prints) or len(set(t[0] for t in tests)) > 1
-            or any(t[4] for t in tests) or any(st[0] != "p" for t in tests for st in t[5]))
+    tests, post, ops, names, msgs, prints = _texts(s)
+    return (_has(names) or _has(msgs) or _has(prints) or len(set(t[1] for t in tests)) > 1 or bool(ops)
+            or any(t[5] for t in tests) or any(st[0] != "p" for t in tests for st in t[6]))
+
+
+def _size_label(n):
+    return None if n <= 1024 else "1025-2048" if n <= 2048 else "2049-4096" if n <= 4096 else "4097-16384" if n <= 16384 else "> 16384"
 
 
 def classify(s):
-    pkg, tests, names, msgs, prints = _texts(s)
-    lab = ["groups=%d" % min(6, len(segments(tests))), "tests=%s" % ("1" if len(tests) == 1 else "2-5" if len(tests) <= 5 else "6-15" if len(tests) <= 15 else "16+")]
-    if pkg: lab.append("package")
-    if any(t[4] for t in tests): lab.append("ignored test")
-    nf = [sum(1 for st in t[5] if st[0] != "p") for t in tests]
+    tests, post, ops, names, msgs, prints = _texts(s)
+    segs = segments(tests)
+    lab = ["groups=%d" % min(6, len(segs)), "tests=%s" % ("1" if len(tests) == 1 else "2-5" if len(tests) <= 5 else "6-15" if len(tests) <= 15 else "16+")]
+    if any(t[5] for t in tests): lab.append("ignored test")
+    nf = [sum(1 for st in t[6] if st[0] != "p") for t in tests]
     if any(x == 1 for x in nf): lab.append("test failing once")
     if any(x > 1 for x in nf): lab.append("test failing several times")
-    if any(st[0] == "x" for t in tests for st in t[5]): lab.append("fail() terminates test")
+    if any(st[0] == "x" for t in tests for st in t[6]): lab.append("fail() terminates test")
     if _has(names): lab.append("markup char in a name/path")
     if _has(msgs): lab.append("markup char in a message")
     if _has(prints): lab.append("markup char in printed text")
     if _has(names + msgs + prints, b"\r\n"): lab.append("CR/LF")
-    if any(c in FORBIDDEN for b in [pkg] + [t[0] for t in tests] for c in b): lab.append("file-name-forbidden char in group/package")
+    if any(c in FORBIDDEN for b in [o[1] for o in ops] + [t[1] for t in tests] for c in b): lab.append("file-name-forbidden char in group/package")
+    # package history
+    sets = [o for o in ops if o[0] == "k"]
+    if not sets: lab.append("package never set")
+    if len(sets) >= 2: lab.append("package set more than once")
+    if any(o[1] == b"" for o in sets): lab.append("package set to empty")
+    pk, at_end, seen_set, asked_before = b"", [], False, False
+    for g in segs:
+        for t in g:
+            for o in t[0]:
+                if o[0] == "k":
+                    pk, seen_set = o[1], True
+                elif not seen_set:
+                    asked_before = True
+        at_end.append(pk)
+    if sets and (asked_before or (at_end and at_end[0] == b"" and any(at_end))): lab.append("package set late (after createFileName / a written group)")
+    if len(set(at_end)) > 1: lab.append("package differs between group files")
+    if any(o[0] == "k" for g in segs for t in g[1:] for o in t[0]): lab.append("package set inside a group")
+    if any(o[0] == "n" for o in ops): lab.append("createFileName asked from outside")
+    if any(o[0] == "n" for o in post): lab.append("createFileName asked after the run")
+    cap = _size_label(sum(len(x) for x in prints))
+    if cap: lab.append("captured output " + cap)
+    m = _size_label(max([len(x) for x in msgs] or [0]))
+    if m: lab.append("failure message " + m)
     return lab
 
 
@@ -180,7 +358,7 @@ def classify(s):
 def segments(tests):
     segs = []
     for t in tests:
-        if segs and segs[-1][0][0] == t[0]:
+        if segs and segs[-1][0][1] == t[1]:
             segs[-1].append(t)
         else:
             segs.append([t])
@@ -235,12 +413,12 @@ def judge_file(g, content, printed_all, printed_own):
     if root[0] != "testsuite":
         return "root element is not testsuite"
     a = root[1]
-    if a.get("name") != L(g[0][0]):
+    if a.get("name") != L(g[0][1]):
         return "suite name"
     try:
         if int(a.get("tests", "x")) != len(g):
             return "suite tests count"
-        nfail = sum(1 for t in g if not t[4] and any(st[0] != "p" for st in reached(t[5])))
+        nfail = sum(1 for t in g if not t[5] and any(st[0] != "p" for st in reached(t[6])))
         if int(a.get("failures", "x")) != nfail:
             return "suite failures count"
     except ValueError:
@@ -250,17 +428,17 @@ def judge_file(g, content, printed_all, printed_own):
         return "number of testcase elements"
     for t, tc in zip(g, tcs):
         at = tc[1]
-        if at.get("name") != L(t[1]):
+        if at.get("name") != L(t[2]):
             return "testcase name"
-        if at.get("file") != L(t[2]):
+        if at.get("file") != L(t[3]):
             return "testcase file"
-        if at.get("line") != str(t[3]):
+        if at.get("line") != str(t[4]):
             return "testcase line"
         kids = [k for k in tc[2] if not isinstance(k, str)]
-        if any(k[0] == "skipped" for k in kids) != t[4]:
+        if any(k[0] == "skipped" for k in kids) != t[5]:
             return "skipped marker"
         fl = [k for k in kids if k[0] == "failure"]
-        fs = [] if t[4] else [st for st in reached(t[5]) if st[0] != "p"]
+        fs = [] if t[5] else [st for st in reached(t[6]) if st[0] != "p"]
         if bool(fl) != bool(fs) or len(fl) > 1:
             return "failure element presence"
         if fs and fl[0][1].get("message") != L(fs[0][1]) + ":" + str(fs[0][2]) + ": " + L(fs[0][3]):
@@ -275,26 +453,55 @@ def judge_file(g, content, printed_all, printed_own):
 
 
 def obs_files(obs):
+    """-> ([(file name, content)], [createFileName answers])"""
     t = obs.split()
     n = int(t[0], 16)
-    return [(unb(t[1 + 2 * i]), unb(t[2 + 2 * i])) for i in range(n)]
+    files = [(unb(t[1 + 2 * i]), unb(t[2 + 2 * i])) for i in range(n)]
+    m = int(t[1 + 2 * n], 16)
+    names = [unb(t[2 + 2 * n + i]) for i in range(m)]
+    if len(t) != 2 + 2 * n + m:
+        raise ValueError("observation length")
+    return files, names
 
 
 def judge(s, obs):
-    pkg, tests = parse_scn(s)
+    tests, post = parse_scn(s)
     segs = segments(tests)
-    files = obs_files(obs)
+    files, names = obs_files(obs)
     if len(files) != len(segs):
         return "number of files written (%d) differs from the number of groups (%d)" % (len(files), len(segs))
     printed = b""
+    pkg = b""           # the package of the moment: the argument of the latest setPackageName
+    asked = 0
+    def outside(ops):
+        nonlocal pkg, asked
+        for kind, v in ops:
+            if kind == "k":
+                pkg = v
+            else:
+                if asked >= len(names):
+                    return "a createFileName answer is missing"
+                if names[asked] != expected_filename(pkg, v):
+                    return "createFileName answer %d is not built from the package of that moment" % asked
+                asked += 1
+        return None
     for k, (g, (fn, content)) in enumerate(zip(segs, files)):
-        own = b"".join(st[1] for t in g if not t[4] for st in reached(t[5]) if st[0] == "p")
+        for t in g:
+            w = outside(t[0])
+            if w:
+                return w
+        own = b"".join(st[1] for t in g if not t[5] for st in reached(t[6]) if st[0] == "p")
         printed += own
-        if fn != expected_filename(pkg, g[0][0]):
-            return "file name of group %d" % k
+        if fn != expected_filename(pkg, g[0][1]):
+            return "file name of group %d" % k + (" (package set or changed after the first name was built)" if k > 0 or asked else "")
         w = judge_file(g, content, printed, own)
         if w:
             return "group %d: %s" % (k, w)
+    w = outside(post)
+    if w:
+        return w
+    if asked != len(names):
+        return "more createFileName answers than calls"
     return None
 
 
@@ -306,10 +513,10 @@ def extra_oracle(s, obs, flavour):
 def project(obs, flavour):
     """only what the property constrains: file names + the expat tree reduced to the constrained fields"""
     try:
-        files = obs_files(obs)
+        files, names = obs_files(obs)
     except Exception:
         return obs
-    out = []
+    out = [names]
     for fn, content in files:
         try:
             r = expat_tree(content)
@@ -332,58 +539,94 @@ def signature(s, obs):
         return "crash " + obs[:60]
     w = judge(s, obs) or "coq spec only"
     import re
-    w = re.sub(r"group \d+: ", "", w)
+    w = re.sub(r"group \d+", "group", w)
+    w = re.sub(r"answer \d+", "answer", w)
     w = re.sub(r"\(expat: [^)]*\)", "", w).strip()
-    pkg, tests, names, msgs, prints = _texts(s)
+    if w.startswith("file name") or "createFileName answer" in w:
+        return w
+    tests, post, ops, names, msgs, prints = _texts(s)
     where = []
     if _has(names): where.append("name/path")
     return "%s [markup char in: %s]" % (w, ",".join(where) or "-")
 
 
+def shorter(b):
+    """smaller candidates for one text; long texts (captured output, messages of kilobytes) are cut in pieces, never byte by byte"""
+    n = len(b)
+    if n > 1:
+        yield b[:n // 2]
+        yield b[n // 2:]
+    if n > 24:
+        k = n // 4
+        while k >= 1:
+            yield b[:n - k]
+            yield b[k:]
+            k //= 2
+        if b != b"a" * n:
+            yield b"a" * n
+    else:
+        for k in range(n):
+            yield b[:k] + b[k + 1:]
+
+
 def shrink(s):
-    pkg, tests = parse_scn(s)
-    if pkg:
-        yield ser(b"", tests)
+    tests, post = parse_scn(s)
+    # fewer outside calls
+    if post:
+        yield ser(tests, [])
+    if any(t[0] for t in tests):
+        yield ser([([],) + t[1:] for t in tests], post)
     for i in range(len(tests)):
         if len(tests) > 1:
-            yield ser(pkg, tests[:i] + tests[i + 1:])
+            # keep the calls of a dropped test: they move in front of the next test (or after the run)
+            if i + 1 < len(tests):
+                nxt = (list(tests[i][0]) + list(tests[i + 1][0]),) + tests[i + 1][1:]
+                yield ser(tests[:i] + [nxt] + tests[i + 2:], post)
+            else:
+                yield ser(tests[:i], list(tests[i][0]) + list(post))
+            if tests[i][0]:
+                yield ser(tests[:i] + tests[i + 1:], post)
     for i, t in enumerate(tests):
-        g, n, f, l, ign, body = t
+        for j in range(len(t[0])):
+            yield ser(tests[:i] + [(t[0][:j] + t[0][j + 1:],) + t[1:]] + tests[i + 1:], post)
+    for j in range(len(post)):
+        yield ser(tests, post[:j] + post[j + 1:])
+    for i, t in enumerate(tests):
+        body = t[6]
         for j in range(len(body)):
-            yield ser(pkg, tests[:i] + [(g, n, f, l, ign, body[:j] + body[j + 1:])] + tests[i + 1:])
-    def shorter(b):
-        if len(b) > 1:
-            yield b[:len(b) // 2]
-            yield b[len(b) // 2:]
-        if len(b) > 0:
-            for k in range(len(b)):
-                yield b[:k] + b[k + 1:]
-    for c in shorter(pkg):
-        yield ser(c, tests)
+            yield ser(tests[:i] + [t[:6] + (body[:j] + body[j + 1:],)] + tests[i + 1:], post)
     for i, t in enumerate(tests):
-        g, n, f, l, ign, body = t
-        for fld in range(3):
+        for j, o in enumerate(t[0]):
+            for c in shorter(o[1]):
+                yield ser(tests[:i] + [(t[0][:j] + [(o[0], c)] + t[0][j + 1:],) + t[1:]] + tests[i + 1:], post)
+    for j, o in enumerate(post):
+        for c in shorter(o[1]):
+            yield ser(tests, post[:j] + [(o[0], c)] + post[j + 1:])
+    for i, t in enumerate(tests):
+        ops, g, n, f, l, ign, body = t
+        for fld in (1, 2, 3):
             for c in shorter(t[fld]):
-                if fld == 0:
+                if fld == 1:
                     # keep the group structure: rename every test of this name
-                    yield ser(pkg, [((c,) + x[1:]) if x[0] == g else x for x in tests])
+                    yield ser([(x[0], c) + x[2:] if x[1] == g else x for x in tests], post)
                 else:
                     tt = list(t); tt[fld] = c
-                    yield ser(pkg, tests[:i] + [tuple(tt)] + tests[i + 1:])
+                    yield ser(tests[:i] + [tuple(tt)] + tests[i + 1:], post)
         if l > 1:
-            yield ser(pkg, tests[:i] + [(g, n, f, 1, ign, body)] + tests[i + 1:])
+            yield ser(tests[:i] + [(ops, g, n, f, 1, ign, body)] + tests[i + 1:], post)
         for j, st in enumerate(body):
             for fld in ([1] if st[0] == "p" else [1, 3]):
                 for c in shorter(st[fld]):
                     ss = list(st); ss[fld] = c
-                    yield ser(pkg, tests[:i] + [(g, n, f, l, ign, body[:j] + [tuple(ss)] + body[j + 1:])] + tests[i + 1:])
+                    yield ser(tests[:i] + [(ops, g, n, f, l, ign, body[:j] + [tuple(ss)] + body[j + 1:])] + tests[i + 1:], post)
 
 
 LEVEL_TEXT = ("Machine-checked (Coq) theorems over an executable model of JUnitTestOutput driven by the callback order of TestRegistry::runAllTests: "
               "the six sequential replace passes of encodeXmlText collapse to a per-byte escape table; escaped text contains no markup; unescape(escape s) = s "
               "for all s; for every run over printable text the report of each group, parsed by an XML parser written in Coq, yields exactly the tree that "
               "states the property (one file per group, true counts, one testcase per test in order with name/file/line, skipped iff ignored, failure iff failed "
-              "with file:line: first message, system-out = printed text); file-name rule. Tied to the code by a differential run of the extracted model against a "
+              "with file:line: first message, system-out = printed text, of any length); file-name rule with the package in force when the group's file is written "
+              "(setPackageName / createFileName called at any point between callbacks; every createFileName answer is built from the package of its moment). Tied to the code by a differential run of the extracted model against a "
               "real JUnitTestOutput (files captured at the platform seams), judged by the extracted spec and independently by Python's expat.")
 LEVEL_NOTE = ("Trusted: Coq kernel, extraction, harness, generators, Python expat. Modelled not verified: the C++ itself; StringFromFormat/vsnprintf content "
               "(%d, %s copying) is modelled; time attributes are constants supplied by the harness; the XML parser covers the subset of XML 1.0 the writer can "
